@@ -50,6 +50,8 @@ type DocSpec struct {
 	TreeDepth         int  `json:"tree_depth"`   // levels of /Pages nodes above the leaves (1..4)
 	InheritAt         int  `json:"inherit_at"`   // 0 keys on the page itself, k = on the k-th ancestor
 	InheritVary       bool `json:"inherit_vary,omitempty"` // sibling subtrees carry different boxes, rotations and font resources; some inherit from the root
+	FontsInline       bool `json:"fonts_inline,omitempty"` // font dictionaries are written directly inside /Resources /Font
+	PageResVary       bool `json:"page_res_vary,omitempty"` // with resources on the page itself: each page maps the same resource names to different fonts
 	ResIndirect       bool `json:"res_indirect"` // /Resources, /Font dict indirect
 	FontPartsIndirect bool `json:"font_parts_indirect"`
 	Rotate            int  `json:"rotate"`   // 0, 90, 180, 270
@@ -117,6 +119,7 @@ func eolOf(i int) string {
 }
 
 type pageState struct {
+	serial  int // creation order (independent of numbering)
 	group   int // which set of inheritable attributes applies to the page
 	num     int // object number of the page dict
 	content []int
@@ -147,6 +150,8 @@ type docState struct {
 	groupOfNode map[int]int // ancestor node -> attribute group (-1: none of its own, inherits from the root)
 	groups      int
 	curGroup    int
+	fontDicts   []Dict
+	pageSerial  int
 	box         [4]float64
 	lenObjs     map[int]int // stream object -> its length object
 	kidsObjs    map[int]int
@@ -287,7 +292,12 @@ func (d *docState) buildBase(set map[int]Obj) {
 			set[n] = o
 		}
 		d.fontNum = append(d.fontNum, num)
-		fontDict = append(fontDict, KV{f.ResName, d.ref(num)})
+		d.fontDicts = append(d.fontDicts, fd)
+		if sp.FontsInline {
+			fontDict = append(fontDict, KV{f.ResName, fd})
+		} else {
+			fontDict = append(fontDict, KV{f.ResName, d.ref(num)})
+		}
 	}
 	d.resDict = Dict{}
 	if sp.ResIndirect {
@@ -340,7 +350,7 @@ func (d *docState) buildBase(set map[int]Obj) {
 	}
 	for li, leaf := range leaves {
 		for k := 0; k < perLeaf[li]; k++ {
-			p := &pageState{num: d.alloc(), parent: leaf}
+			p := &pageState{num: d.alloc(), parent: leaf, serial: d.nextSerial()}
 			d.nodeKids[leaf] = append(d.nodeKids[leaf], -p.num) // negative marks a page leaf
 			d.pages = append(d.pages, p)
 		}
@@ -435,9 +445,15 @@ func (d *docState) ancestor(p *pageState, k int) int {
 	return n
 }
 
+func (d *docState) nextSerial() int { d.pageSerial++; return d.pageSerial }
+
 // groupFor decides which set of inheritable attributes a page sees.
 func (d *docState) groupFor(p *pageState) int {
 	sp := d.spec
+	if sp.PageResVary && sp.InheritAt == 0 && len(d.fonts) > 1 {
+		// resources on the page itself: rotate the name -> font mapping from page to page
+		return 1 + p.serial%len(d.fonts)
+	}
 	if !sp.InheritVary || sp.InheritAt == 0 {
 		return 0
 	}
@@ -466,12 +482,20 @@ func (d *docState) groupFor(p *pageState) int {
 
 func (d *docState) groupBox(g int) [4]float64 {
 	b := d.box
+	if d.spec.InheritAt == 0 {
+		return b // page-level groups only differ in their font resources
+	}
 	b[2] += float64(7 * g)
 	b[3] += float64(11 * g)
 	return b
 }
 
-func (d *docState) groupRotate(g int) int { return (d.spec.Rotate + 90*g) % 360 }
+func (d *docState) groupRotate(g int) int {
+	if d.spec.InheritAt == 0 {
+		return d.spec.Rotate
+	}
+	return (d.spec.Rotate + 90*g) % 360
+}
 
 // resName: the resource name under which font i is known in the current group
 // (sibling subtrees map the same names to different fonts).
@@ -486,7 +510,11 @@ func (d *docState) groupResources(g int) Dict {
 	d.curGroup = g
 	fd := Dict{}
 	for i := range d.fonts {
-		fd = append(fd, KV{d.resName(i), d.ref(d.fontNum[i])})
+		if d.spec.FontsInline {
+			fd = append(fd, KV{d.resName(i), d.fontDicts[i]})
+		} else {
+			fd = append(fd, KV{d.resName(i), d.ref(d.fontNum[i])})
+		}
 	}
 	d.curGroup = save
 	res := Dict{{"Font", fd}, {"ProcSet", Arr{Name("PDF"), Name("Text")}}}
@@ -797,7 +825,9 @@ func (d *docState) writePageObjects(p *pageState, lines []Line, set map[int]Obj,
 	page := Dict{{"Type", Name("Page")}, {"Parent", d.ref(p.parent)}}
 	if sp.InheritAt == 0 {
 		page = append(page, KV{"MediaBox", boxArr(p.model.MediaBox)})
-		if d.resNum != 0 {
+		if p.group > 0 {
+			page = append(page, KV{"Resources", d.groupResources(p.group)})
+		} else if d.resNum != 0 {
 			page = append(page, KV{"Resources", d.ref(d.resNum)})
 		} else {
 			page = append(page, KV{"Resources", d.resDict})
@@ -950,7 +980,7 @@ func (d *docState) applyRevOp(op int, set map[int]Obj, rev int) (free []int) {
 			holders = []int{d.rootNode}
 		}
 		node := sim.Pick(r, holders)
-		p := &pageState{num: d.alloc(), parent: node}
+		p := &pageState{num: d.alloc(), parent: node, serial: d.nextSerial()}
 		kids := d.nodeKids[node]
 		pos := r.Intn(len(kids) + 1)
 		kids = append(kids[:pos], append([]int{-p.num}, kids[pos:]...)...)
